@@ -75,6 +75,10 @@ theorem dtor_inst_lt {st : St} (g : G st) (op : Op) (k : Nat) (hm : Out.dtor (so
     rcases create_spec g d with ⟨rc, _, he, _⟩ | ⟨j, _, ho, _⟩
     · rw [he] at hm; simp only [List.mem_singleton] at hm; cases hm
     · rw [ho] at hm; simp only [List.mem_singleton] at hm; cases hm
+  | createFail =>
+    rw [step_createFail] at hm
+    simp only [List.mem_singleton] at hm
+    exact absurd hm.symm (createFail_out_ne g _)
   | get h => rw [step_get] at hm; simp only [List.mem_singleton] at hm; cases hm
   | getAlways h => rw [step_getAlways] at hm; simp only [List.mem_singleton] at hm; cases hm
   | put h => rw [step_put] at hm; exact put_dtor_lt g h k hm
